@@ -128,7 +128,12 @@ def one_run(d, tag, lines, order, by_chrom, withseq, gz, variant, hashseed=None,
     csvs.sort(key=key)
     segs, links, tags, seg_order, sbl, csv = parse_out(gfas, csvs)
     written = [c for c in order if any(p.rsplit(".", 1)[0].endswith("-" + c) for p in gfas + csvs)]
-    files = {os.path.basename(p).split("-", 1)[1]: read_text(p) for p in gfas + csvs}
+    # documented names: <graph name>-<chromosome>.gfa/.csv and <graph name>-complete.gfa/.csv
+    # (the part before the dash is derived from the input's name in two slightly different ways for .gfa and .csv, as it always was)
+    odd = [os.path.basename(p) for p in gfas + csvs if not any(os.path.basename(p).rsplit(".", 1)[0].endswith("-" + c) for c in list(order) + ["complete"])]
+    if odd and status == "ok":
+        status = "output_file_not_named_as_documented:" + odd[0][:40]
+    files = {(os.path.basename(p).split("-", 1)[1] if "-" in os.path.basename(p) else os.path.basename(p)): read_text(p) for p in gfas + csvs}
     return {"order": order, "status": status, "tags": tags, "variant": variant, "segs": segs, "links": links, "seg_order": seg_order,
             "s_before_l": sbl, "csv": csv, "withseq": withseq, "by_chrom": by_chrom, "written": written, "pair": pair,
             "files": sorted(files.items()), "out_gfas": gfas}
